@@ -4,7 +4,7 @@ import z3
 
 from jvc.lib import LIB as _L, model
 from jvc.symexec import Contract, PI, b_and, q_forall, to_z3
-from jvc.values import Arr, NameRef, Obj, Opaque, PyDict, PyList, Unsupported, fresh_arr, fresh_int, fresh_name, fresh_real
+from jvc.values import Arr, NameRef, Obj, Opaque, PyDict, PyList, SliceV, Unsupported, fresh_arr, fresh_int, fresh_name, fresh_real
 
 from . import astromodel as A
 from . import common  # noqa: F401
@@ -89,6 +89,8 @@ def _prop(name, fn_):
 
 t_ref_prop = _prop("t_ref", lambda ex, path, bound, node: bound["self"].fields["tbl"].fields["meta"].vals["t_ref"])
 par_names_prop = _prop("par_names", lambda ex, path, bound, node: bound["self"].fields["tbl"].fields["colnames"])
+poly_trend_prop = _prop("poly_trend", lambda ex, path, bound, node: bound["self"].fields["tbl"].fields["meta"].vals["poly_trend"])
+n_offsets_prop = _prop("n_offsets", lambda ex, path, bound, node: bound["self"].fields["tbl"].fields["meta"].vals["n_offsets"])
 
 
 def _res_getitem(ex, path, bound, node):
@@ -282,3 +284,165 @@ CALLEES_UNPACK = {"thejoker.samples.JokerSamples": js_ctor, "thejoker.samples.Jo
                   S + "__setitem__": js_setitem}
 unpack = _unpack_contracts()
 CONTRACTS += unpack
+
+
+# ---- the constructor and the operations that build new tables from old ones: units and metadata flow ---------------------------------------------
+def table_param(row=False, extra_meta=False):
+    def build(ex, path, name):
+        cols = [("P", A.sym_unit("P_unit", TIME)), ("e", A.U_ONE), ("omega", A.sym_unit("omega_unit", ANGLE)), ("M0", A.sym_unit("M0_unit", ANGLE)),
+                ("s", A.sym_unit("s_unit", SPEED)), ("K", A.sym_unit("K_unit", SPEED)), ("v0", A.sym_unit("v0_unit", SPEED))]
+        for _, u_ in cols:
+            path.assume(*getattr(u_, "sym_facts", []))
+        n = z3.Int("n_samples")
+        path.assume(n >= 1)
+        meta = PyDict([("t_ref", A.time_obj(z3.Real("t_ref_bmjd"))), ("poly_trend", 1), ("n_offsets", 0)])
+        if extra_meta:
+            meta = meta.set("run_label", Opaque("user-meta-value"))
+        return T.samples_table(cols, n, meta)
+    return build
+
+
+INIT_ENS = {
+    "reference-epoch-poly_trend-n_offsets-from-the-source-table": "self.tbl.meta['t_ref'] is samples.meta['t_ref'] and self.tbl.meta['poly_trend'] == 1 and "
+                                                                  "self.tbl.meta['n_offsets'] == 0",
+    "same-columns-in-the-same-order": "list(self.tbl.colnames) == list(samples.colnames)",
+    "every-column-keeps-its-values-and-unit": " and ".join(f"self.tbl['{c}'].unit is samples['{c}'].unit and self.tbl['{c}'].value is samples['{c}'].value" for c in ALLP),
+}
+js_init = [Contract(S + "__init__", PROPERTY,
+                    params={"self": lambda ex, path, n: Obj("JokerSamples", {"__qualclass__": "thejoker.samples.JokerSamples", "cls_name": "JokerSamples"}, ident="self"),
+                            "samples": table_param(extra_meta=xm), "t_ref": "none", "n_offsets": "none", "poly_trend": "none", "kwargs": lambda ex, path, n: PyDict()},
+                    cases=[{"_name": "from-a-table" + (",extra-meta" if xm else "")}],
+                    ensures=dict(INIT_ENS, **({"other-metadata-kept": "self.tbl.meta['run_label'] is samples.meta['run_label']"} if xm else {})))
+           for xm in (False, True)]
+for _c in js_init:
+    _c.callees = {"JokerSamples.__setitem__": js_setitem, S + "__setitem__": js_setitem}
+    _c.returns_self = True
+CONTRACTS += js_init
+HOOKS = {"inline": {"thejoker.prior_helpers.get_linear_equiv_units", "thejoker.prior_helpers.validate_poly_trend", "thejoker.prior_helpers.validate_n_offsets",
+                    "thejoker.prior_helpers.get_nonlinear_equiv_units", "thejoker.prior_helpers.get_v0_offsets_equiv_units"}}
+
+
+def _res_js_ctor_any(ex, path, bound, node):
+    """JokerSamples(samples, t_ref=, poly_trend=, n_offsets=, **meta) as a callee: what __init__'s contract above establishes for a table / row
+    source (its metadata wins over the keywords), extended to a dict of columns (metadata from the keywords) - assumed for the dict case."""
+    src = bound.get("samples")
+    meta = PyDict()
+    kw = {k: bound.get(k) for k in ("t_ref", "poly_trend", "n_offsets")}
+    extra = bound.get("kwargs") if isinstance(bound.get("kwargs"), PyDict) else PyDict()
+    cols, n = PyDict(), None
+    if isinstance(src, Obj) and src.cls in ("QTable", "Row"):
+        sm = src.fields["meta"]
+        for k in ("t_ref", "poly_trend", "n_offsets"):
+            meta = meta.set(k, sm.vals[k] if k in sm.vals else kw[k])
+        for k in sm.keys:
+            if k not in meta.vals:
+                meta = meta.set(k, sm.vals[k])
+        for k in src.fields["cols"].keys:
+            q = src.fields["cols"].vals[k]
+            v = q.fields["value"]
+            if not isinstance(v, Arr):
+                v = Arr([1], lambda i, v=v: to_z3(v, "real"), "real", f"{k}[row]")
+                q = A.quantity(v, q.fields["unit"])
+            cols = cols.set(k, q)
+            n = q.fields["value"].shape[0]
+    else:
+        for k in ("t_ref", "poly_trend", "n_offsets"):
+            meta = meta.set(k, kw[k] if kw[k] is not None else {"t_ref": None, "poly_trend": 1, "n_offsets": 0}[k])
+        if isinstance(src, PyDict):
+            for k in src.keys:
+                q = src.vals[k]
+                if not isinstance(q.fields["value"], Arr):      # np.atleast_1d of a scalar quantity: one row
+                    q = A.quantity(Arr([1], lambda i, v=q.fields["value"]: to_z3(v, "real"), "real", f"{k}[reduced]"), q.fields["unit"])
+                cols = cols.set(k, q)
+                n = q.fields["value"].shape[0]
+    for k in extra.keys:
+        if k not in meta.vals:
+            meta = meta.set(k, extra.vals[k])
+    return Obj("JokerSamples", {"tbl": T.qtable(cols, meta, n), "_cache": PyDict(), "__qualclass__": "thejoker.samples.JokerSamples", "cls_name": "JokerSamples"})
+
+
+js_ctor_any = Contract("thejoker.samples.JokerSamples.__init__", PROPERTY, ensures={}, result=_res_js_ctor_any)
+FLOW_CALLEES = {"thejoker.samples.JokerSamples": js_ctor_any, "thejoker.samples.JokerSamples.__init__": js_ctor_any,
+                S + "t_ref": t_ref_prop, "JokerSamples.t_ref": t_ref_prop, S + "par_names": par_names_prop, "JokerSamples.par_names": par_names_prop,
+                S + "poly_trend": poly_trend_prop, "JokerSamples.poly_trend": poly_trend_prop, S + "n_offsets": n_offsets_prop,
+                "JokerSamples.n_offsets": n_offsets_prop}
+META_KEPT = "result.tbl.meta['t_ref'] is self.tbl.meta['t_ref'] and result.tbl.meta['poly_trend'] is self.tbl.meta['poly_trend'] and " \
+            "result.tbl.meta['n_offsets'] is self.tbl.meta['n_offsets']"
+UNITS_KEPT = " and ".join(f"result.tbl['{c}'].unit is self.tbl['{c}'].unit" for c in ALLP)
+
+
+def int_key(ex, path, name):
+    k = z3.Int("key")
+    path.assume(0 <= k, k < z3.Int("n_samples"))
+    return k
+
+
+def slice_key(ex, path, name):
+    lo, hi = z3.Int("key_lo"), z3.Int("key_hi")
+    path.assume(0 <= lo, lo <= hi, hi <= z3.Int("n_samples"))
+    return SliceV(lo, hi, None)
+
+
+def mask_key(ex, path, name):
+    return fresh_arr("key_mask", 1, "bool", [z3.Int("n_samples")])
+
+
+flow = [
+    Contract(S + "__getitem__", PROPERTY, params={"self": samples_self(), "key": int_key}, cases=[{"_name": "int"}],
+             ensures={"metadata-kept": META_KEPT, "units-kept": UNITS_KEPT, "same-columns": "list(result.tbl.colnames) == list(self.tbl.colnames)",
+                      "that-member-row": " and ".join(f"result.tbl['{c}'].value[0] == self.tbl['{c}'].value[key]" for c in ALLP)}),
+    Contract(S + "__getitem__", PROPERTY, params={"self": samples_self(), "key": slice_key}, cases=[{"_name": "slice"}],
+             ensures={"metadata-kept": META_KEPT, "units-kept": UNITS_KEPT, "same-columns": "list(result.tbl.colnames) == list(self.tbl.colnames)",
+                      "the-selected-rows": " and ".join(f"all(result.tbl['{c}'].value[i] == self.tbl['{c}'].value[key.start + i] for i in range(key.stop - key.start))"
+                                                        for c in ALLP)}),
+    Contract(S + "__getitem__", PROPERTY, params={"self": samples_self(), "key": mask_key}, cases=[{"_name": "mask"}],
+             ensures={"metadata-kept": META_KEPT, "units-kept": UNITS_KEPT, "same-columns": "list(result.tbl.colnames) == list(self.tbl.colnames)"}),
+    Contract(S + "copy", PROPERTY, params={"self": samples_self()},
+             ensures={"metadata-kept": META_KEPT, "units-kept": UNITS_KEPT, "same-columns": "list(result.tbl.colnames) == list(self.tbl.colnames)",
+                      "same-values": " and ".join(f"result.tbl['{c}'].value is self.tbl['{c}'].value" for c in ALLP)}),
+]
+for _c in flow:
+    _c.callees = dict(FLOW_CALLEES)
+CONTRACTS += flow
+
+
+# ---- mean / std (through _apply) and median_period --------------------------------------------------------------------------------------------
+_MEAN = z3.Function("mean_of", z3.IntSort(), z3.RealSort())
+
+
+@model("numpy.mean", "numpy.std", doc="np.mean / np.std of a Quantity column: a scalar Quantity in the same unit (its value is not modelled)")
+def _np_mean(ex, path, args, kwargs, node, fn):
+    q = args[0]
+    if not A.is_q(q):
+        raise Unsupported("np.mean of a non-Quantity")
+    return A.quantity(fresh_real("reduced"), q.fields["unit"])
+
+
+@model("numpy.argpartition", doc="argpartition(x, k)[k]: the index of an element of rank k - some valid row index (which one is not modelled)")
+def _argpartition(ex, path, args, kwargs, node, fn):
+    x = args[0]
+    v = x.fields["value"] if A.is_q(x) else x
+    n = v.shape[0]
+    idx = fresh_int("median_row")
+    path.assume(0 <= idx, idx < n)
+    return Arr([n], lambda k, idx=idx: idx, "int", "argpartition")
+
+
+LIB.update({"numpy.mean": _np_mean, "numpy.std": _np_mean, "numpy.argpartition": _argpartition})
+
+flow2 = [
+    Contract(S + "_apply", PROPERTY, params={"self": samples_self(), "func": lambda ex, path, n, f=f: NameRef(f)}, cases=[{"_name": f.split(".")[1]}],
+             ensures={"metadata-kept": META_KEPT, "units-kept": UNITS_KEPT, "same-columns": "list(result.tbl.colnames) == list(self.tbl.colnames)",
+                      "one-row": " and ".join(f"len(result.tbl['{c}'].value) == 1" for c in ALLP)})
+    for f in ("numpy.mean", "numpy.std")]
+flow2.append(Contract(S + "median_period", PROPERTY, params={"self": samples_self()},
+                      ensures={"metadata-kept": META_KEPT, "units-kept": UNITS_KEPT,
+                               "an-actual-member-row": "any(" + " and ".join(f"result.tbl['{c}'].value[0] == self.tbl['{c}'].value[r]" for c in ALLP) +
+                                                       " for r in range(len(self.tbl['P'].value)))"}))
+getitem_int_callee = Contract(S + "__getitem__", PROPERTY, ensures={}, result=lambda ex, path, bound, node: (
+    T._tbl_getitem(ex, path, bound["self"].fields["tbl"], bound["key"], node) if isinstance(bound["key"], str) else
+    _res_js_ctor_any(ex, path, {"samples": T._tbl_getitem(ex, path, bound["self"].fields["tbl"], bound["key"], node)}, node)))
+for _c in flow2:
+    _c.callees = dict(FLOW_CALLEES)
+    _c.callees.update({S + "__getitem__": getitem_int_callee, "JokerSamples.__getitem__": getitem_int_callee})
+CONTRACTS += flow2
